@@ -117,21 +117,31 @@ func init() {
 func init() {
 	g2lUnits = append(g2lUnits, &g2lUnit{
 		out: "FnZip", ns: "Zip", pkgDir: "zip",
-		imports:     []string{"ModVerif.Basic.GoRtUtf8", "ModVerif.Basic.GoRtPath"},
+		imports:     []string{"ModVerif.Basic.GoRtUtf8", "ModVerif.Basic.GoRtPath", "ModVerif.Basic.GoRtZipIO"},
 		structNames: []string{"pathInfo", "FileInfo", "File", "FileError", "CheckedFiles"},
+		worldFns:    map[string]string{"Create": "ZipW", "Unzip": "FsW"},
+		worldCalls: map[string]string{"zw.Create": "zwCreate", "Create:io.Copy": "zwWrite", "zw.Close": "zwClose",
+			"os.ReadDir": "osReadDir", "os.Open": "osOpen", "os.MkdirAll": "osMkdirAll", "os.OpenFile": "osOpenFile",
+			"zf.Open": "zfOpen:recv", "Unzip:io.Copy": "osCopy", "w.Close": "osClose:recv"},
+		foreignTypes: map[string]string{"zip.Reader": "ZReader", "zip.File": "ZEntry", "zip.Writer": "Unit", "os.File": "OsFile",
+			"io.LimitedReader": "LimitedReader", "module.Version": "ModVersion", "fs.DirEntry": "Unit"},
+		limitedReaders: true,
+		preamble: "/-- `f.Stat()` of the opened archive -/\ndef osStat (f : OsFile) : FileInfo × Option String := ({ Mode := 0, IsDir := false, Size := f.size }, f.statErr)\n",
 		ifaceStructs: map[string]string{
 			"FileInfo": "/-- `os.FileInfo` as the zip code uses it -/\nstructure FileInfo where\n  Mode : Int\n  IsDir : Bool\n  Size : Int\n  deriving DecidableEq, Repr\ninstance : Inhabited FileInfo := ⟨{ Mode := 0, IsDir := false, Size := 0 }⟩\n",
 			"File":     "/-- `type File interface` (Open yields the content) -/\nstructure File where\n  Path : Bytes\n  Lstat : FileInfo × Option String\n  Open : Bytes × Option String\n  deriving DecidableEq, Repr\ninstance : Inhabited File := ⟨{ Path := [], Lstat := (default, none), Open := ([], none) }⟩\n",
 		},
-		ifaces:      map[string]string{"ReadCloser": "Bytes"},
+		ifaces:      map[string]string{"ReadCloser": "Bytes", "Writer": "Unit"},
 		ignoreCalls: map[string]bool{"Close": true},
-		fns:         []string{"isVendoredPackage", "strToFold", "collisionChecker.check", "checkFiles"},
+		fns:         []string{"isVendoredPackage", "strToFold", "collisionChecker.check", "checkFiles", "CheckedFiles.Err", "checkZip", "Create", "Unzip"},
 		inout:       map[string]string{"collisionChecker.check": "cc"},
 		absFuncs: map[string]string{"version.Compare": "versionCompare", "unicode.SimpleFold": "simpleFold", "strings.EqualFold": "equalFold",
-			"module.CheckFilePath": "checkFilePath", "strings.ToLower": "toLower", "version.Lang": "versionLang", "parseGoVers": "parseGoVers"},
+			"module.CheckFilePath": "checkFilePath", "module.CanonicalVersion": "canonicalVersion", "module.Check": "moduleCheck", "strings.ToLower": "toLower", "version.Lang": "versionLang", "parseGoVers": "parseGoVers"},
 		absSigs: map[string]string{"versionCompare": "Bytes → Bytes → Int", "simpleFold": "Int → Int", "equalFold": "Bytes → Bytes → Bool",
-			"checkFilePath": "Bytes → Option String", "toLower": "Bytes → Bytes", "versionLang": "Bytes → Bytes", "parseGoVers": "Bytes → Bytes → Bytes"},
-		stdCalls: map[string]stdFn{"path.Dir": {"pathDir", false}, "path.Split": {"pathSplit", false}, "path.Clean": {"pathClean", false}, "path.IsAbs": {"pathIsAbs", false},
+			"checkFilePath": "Bytes → Option String", "canonicalVersion": "Bytes → Bytes", "moduleCheck": "Bytes → Bytes → Option String", "toLower": "Bytes → Bytes", "versionLang": "Bytes → Bytes", "parseGoVers": "Bytes → Bytes → Bytes"},
+		stdCalls: map[string]stdFn{"zip.NewWriter": {"zipNewWriter", false}, "zip.NewReader": {"zipNewReader", false}, "f.Stat": {"osStat", false},
+			"filepath.Join": {"fpJoin", false}, "filepath.Dir": {"pathDir", false}, "path.Base": {"pathBase", false},
+			"path.Dir": {"pathDir", false}, "path.Split": {"pathSplit", false}, "path.Clean": {"pathClean", false}, "path.IsAbs": {"pathIsAbs", false},
 			"io.ReadAll": {"readAll", false}, "info.Mode().IsRegular": {"modeIsRegular", false}},
 	})
 }
